@@ -342,7 +342,8 @@ class _FuncAnalysis:
                 for x in t.elts:
                     self._bind(x.value if isinstance(x, ast.Starred) else x, frozenset({INNER}), True)
                 return
-            if (SET in kv or ORD in kv) and not silent:
+            single = len(t.elts) == 1 and not isinstance(t.elts[0], ast.Starred)  # `(x,) = s` takes the only element: no order involved
+            if (SET in kv or ORD in kv) and not silent and not single:
                 self.rep(node or t, "a set (or a sequence ordered by a set) is unpacked into variables: which value lands where depends on the hash seed")
             for x in t.elts:
                 self._bind(x.value if isinstance(x, ast.Starred) else x, E0, True)
